@@ -65,6 +65,9 @@ impl Family for C05Family {
                     OpKind::MakeCredential(s) => s.exclude = gen_list(&mut r, 3),
                     _ => {}
                 }
+                if r.chance(1, 3) {
+                    op.list_transports = (0..4).map(|_| r.below(6) as u8).collect();
+                }
                 if r.chance(1, 4) {
                     op.unknown_type = (0..4).map(|_| r.bool()).collect();
                     if r.chance(1, 3) {
@@ -92,7 +95,7 @@ impl Family for C05Family {
         let c = ceremony_of(scn);
         let rec = run_and_measure(c, stats);
         let mut j = Judge::new("C05", scn, &rec);
-        for p in ["exclude_lookup_on_contended_store", "allow_list_of_unknown_type_descriptors", "eligible_credential_with_consent", "allow_list_names_other_rp_credential", "allow_list_all_misses", "empty_allow_list", "exclude_hit", "exclude_names_other_rp_credential", "shipped_lookup_without_ids", "shipped_lookup_with_ids", "shipped_store_holds_two_rps"] {
+        for p in ["list_entries_with_transport_hints", "exclude_lookup_on_contended_store", "allow_list_of_unknown_type_descriptors", "eligible_credential_with_consent", "allow_list_names_other_rp_credential", "allow_list_all_misses", "empty_allow_list", "exclude_hit", "exclude_names_other_rp_credential", "shipped_lookup_without_ids", "shipped_lookup_with_ids", "shipped_store_holds_two_rps"] {
             stats.declare_probe(p);
         }
         if rec.panic.is_some() || rec.outcome != Outcome2::Done {
@@ -108,6 +111,9 @@ impl Family for C05Family {
             let kind = &spec.kind;
             let rp = op_rp(kind, o).unwrap_or_default();
             let held_for_rp = |id: &Vec<u8>| o.before.iter().any(|s| &s.id == id && s.rp_id == rp);
+            if spec.list_transports.iter().any(|t| *t != 0) && (o.resolved.allow.as_ref().is_some_and(|l| !l.is_empty()) || o.resolved.exclude.as_ref().is_some_and(|l| !l.is_empty())) {
+                stats.probe("list_entries_with_transport_hints");
+            }
             sig.write_str(&format!("{:?}|{}|{:?}|{:?}", std::mem::discriminant(kind), short_result(&o.result).split(' ').next().unwrap_or(""), o.resolved.allow.as_ref().map(|l| l.len()), o.resolved.exclude.as_ref().map(|l| l.len())));
             if matches!(kind, OpKind::Authenticate(_) | OpKind::GetAssertion(_)) {
                 if let Some(l) = &o.resolved.allow {
